@@ -992,6 +992,7 @@ package yqlib
 //@   at AddChildren: assert @slice-elements {C01} forall(j, 0, len(newResults), newResults[j] == lhsNode.Content[relativeFirstNumber + j])
 //@   at AddChildren: assert @new-sequence {C01} sliceArrayNode != nil && sliceArrayNode.Kind == SequenceNode && len(sliceArrayNode.Content) == 0 && sliceArrayNode.Tag == lhsNode.Tag
 //@   ensures @one-result-per-input {C01} implies(result1 == nil, result0.MatchingNodes != nil && len(result0.MatchingNodes) == len(context.MatchingNodes))
+//@   ensures @stays-read-only implies(result1 == nil, result0.DontAutoCreate == context.DontAutoCreate)
 //@   loop 1:
 //@     invariant @position (el == nil && iter() == len(context.MatchingNodes)) || (el != nil && elList(el) == context.MatchingNodes && elIdx(el) == iter())
 //@     invariant @results fresh(results) && len(results) == iter() && nodeList(context.MatchingNodes)
